@@ -4,7 +4,7 @@ patch="$(realpath "$1")"; id="$2"; tier="${3:-quick}"
 cd /verif
 if [ -n "$(git -C /repo status --porcelain)" ]; then echo "/repo not clean" >&2; exit 3; fi
 git -C /repo apply "$patch" || exit 3
-./run check "$id" --tier "$tier" --no-selftest > /tmp/try_seed.out 2>&1
+VERIF_EVIDENCE_DIR=/tmp/try_seed_ev ./run check "$id" --tier "$tier" --no-selftest > /tmp/try_seed.out 2>&1
 rc=$?
 git -C /repo checkout -- . && git -C /repo clean -fdq
 grep -E "^(VIOLATION|KNOWN-FINDING|INCONCLUSIVE|ENCODING|VACUOUS|STALE|check )" /tmp/try_seed.out | cut -c1-220
